@@ -1413,6 +1413,11 @@ def signer_pubkey(W, t, check_body=True):
             break
     if is_call(t, "MsgSigner::public_key_bytes") and t[2]:
         return t[2][0]
+    if is_call(t) and t[2] and t[1] in W.prog.fns and W.prog.fns[t[1]].impl_self == "roughenough::sign::MsgSigner" and check_body:
+        # another accessor of MsgSigner whose body returns the verifying key of self (`public_key_array()`)
+        inner = signer_pubkey(W, W.ev(t[1]).ret(), check_body=False)
+        if inner == ("param", t[1], 1):
+            return t[2][0]
     if isinstance(t, tuple) and t and t[0] == "field":
         # a copy of the public key kept in a field that only the constructor sets, computed there from the very key stored in `signing_key`
         SG = "roughenough::sign::MsgSigner"
